@@ -102,8 +102,13 @@ def classify_site(lang, s):
     if t == "CN":
         return "C03-uppercase-exponent" if ("E" in s[1] and "." not in s[1]) else None
     ops = [x for x in (s[2], s[3]) if x is not None]
-    if lang == "C" and t == "NOT" and _kind(s[2], lang) in ("rel", "logic", "add", "mul", "logb", "cond"):
-        return "C03-not-operand"
+    if lang == "C" and t == "NOT":
+        k = _kind(s[2], lang)
+        if k in ("rel", "logic", "add", "mul", "logb", "cond"):
+            return "C03-not-operand"
+        # "-b/c" and "-b*c": the negation of a product is printed without parentheses, so it is a product
+        if k == "neg" and _kind(_top(s[2])[2], lang) in ("mul", "logb"):
+            return "C03-not-operand"
     if lang == "C" and t in REL and any(_kind(x, lang) in ("rel", "logic", "cond") for x in ops):
         return "C03-relational-operand"
     divisor = None
@@ -132,6 +137,8 @@ def classify_site(lang, s):
 
 # --------------------------------------------------------------------------- running the two sides
 def run_sharded(drv, mode, lines, workdir, tag, nsh=None):
+    """run `drv mode file` over the lines, sharded over processes; outputs go to files (a pipe would make the
+    shards run one after the other once its buffer is full); returns one output line per input line"""
     nsh = nsh or min(vf.NCPU, max(1, len(lines) // 200))
     procs = []
     for k in range(nsh):
@@ -139,10 +146,13 @@ def run_sharded(drv, mode, lines, workdir, tag, nsh=None):
         p = os.path.join(workdir, "%s.%d.cases" % (tag, k))
         with open(p, "w") as f:
             f.write("".join(x + "\n" for x in part))
-        procs.append((k, len(part), subprocess.Popen([drv, mode, p], stdout=subprocess.PIPE, stderr=subprocess.DEVNULL)))
+        of = open(p + ".out", "wb")
+        procs.append((k, len(part), p + ".out", of, subprocess.Popen([drv, mode, p], stdout=of, stderr=subprocess.DEVNULL)))
     out = [None] * len(lines)
-    for k, n, pr in procs:
-        res = pr.communicate()[0].decode("utf-8", "replace").split("\n")
+    for k, n, op, of, pr in procs:
+        pr.wait()
+        of.close()
+        res = open(op, "rb").read().decode("utf-8", "replace").split("\n")
         for i in range(n):
             out[k + i * nsh] = res[i] if i < len(res) else "<missing>"
     return out
@@ -164,12 +174,18 @@ def judge(ctx, case_line, impl, model, readback):
     imf = impl.split("\t")
     if len(imf) != 2:
         return ["implementation line malformed: %r" % impl[:200]], []
-    for k, lang in ((0, "C"), (1, "Py")):
-        if imf[k] != mf[k]:
-            problems.append("%s text differs: library %r, model %r" % (lang, imf[k], mf[k]))
     rb = readback.split("\t")
     if len(rb) != 2:
         return problems + ["read-back line malformed: %r" % readback[:200]], []
+    for k, lang in ((0, "C"), (1, "Py")):
+        if imf[k] != mf[k]:
+            # inside a known-finding class the library may print what the (defective) model prints, or text that
+            # satisfies the property (a later repair of the defect must not raise an alarm); elsewhere: exact
+            sites = [astgen.parse_line(x) for x in mf[8 + k].split(" ;; ") if x]
+            repaired = (mf[2 + k] != "1" and sites and all(classify_site(lang, s) is not None for s in sites)
+                        and rb[k] == mf[4 + k])
+            if not repaired:
+                problems.append("%s text differs: library %r, model %r" % (lang, imf[k], mf[k]))
     for k, lang in ((0, "C"), (1, "Py")):
         intended, got, safe = mf[4 + k], rb[k], mf[2 + k] == "1"
         if got == intended:
